@@ -67,15 +67,17 @@ type clientState struct {
 type Pipe struct {
 	mu sync.Mutex
 
-	Keys     *concr.Keys
-	builders map[string]*concr.Builder // key: "<d>/<ver>"
-	clients  map[int]*clientState
-	ids      map[string]int // canonical request -> submission id
-	suffix   map[int]string
-	long     map[int]string
-	nsub     int
-	curver   uint64
-	unpubOn  bool
+	Keys        *concr.Keys
+	builders    map[string]*concr.Builder // key: "<d>/<ver>"
+	clients     map[int]*clientState
+	ids         map[string]int // canonical request -> submission id
+	suffix      map[int]string
+	long        map[int]string
+	nsub        int
+	Inflated    int // submitted updates built by InflatingRequest
+	InflatedIDs []int
+	curver      uint64
+	unpubOn     bool
 
 	pc       *verClient
 	queue    *opqueue.MemQueue
@@ -358,6 +360,12 @@ func VersionPatches(ver uint64, tag int) []patch.Patch {
 	return []patch.Patch{p}
 }
 
+// Alias is a second namespace the document handler answers to (longer than NS by more than one character).
+const Alias = "did:alias.example.com"
+
+// Suffix returns the unique suffix of DID d ("" before its create was accepted).
+func (p *Pipe) Suffix(d int) string { return p.suffix[d] }
+
 // New wires a pipeline.
 func New(unpubOn bool, kt concr.KeyType) (*Pipe, error) {
 	keys, err := concr.NewKeys(24, concr.SHA256, func(int) concr.KeyType { return kt })
@@ -404,7 +412,7 @@ func New(unpubOn bool, kt concr.KeyType) (*Pipe, error) {
 		dhOpts = append(dhOpts, dochandler.WithUnpublishedOperationStore(p.unpub, allTypes))
 	}
 	proc := processor.New(NS, p.store, p.pc, procOpts...)
-	p.handler = dochandler.New(NS, nil, p.pc, writerGate{p}, proc, noMetrics{}, dhOpts...)
+	p.handler = dochandler.New(NS, []string{Alias}, p.pc, writerGate{p}, proc, noMetrics{}, dhOpts...)
 	p.obs = observer.New(&observer.Providers{Ledger: p, ProtocolClientProvider: clientProvider{p.pc}})
 	p.obs.Start()
 	return p, nil
@@ -597,6 +605,18 @@ func (p *Pipe) Exec(s Step, dids []int) error {
 		if err != nil {
 			return err
 		}
+		if s.K == "U" && (s.D+c.seq)%2 == 0 {
+			// every other update is as large as intake allows in the client's spelling (numbers as 1e20, a long kid) and
+			// larger than the operation size limit once the library has re-serialised it for the operation store
+			params := wire.Params(p.Keys.Hash)
+			if big, ok, ierr := bb.InflatingRequest(sh, int(params.MaxOperationSize), int(params.MaxDeltaSize)); ierr != nil {
+				return ierr
+			} else if ok {
+				req = big
+				p.Inflated++
+				p.InflatedIDs = append(p.InflatedIDs, p.nsub+1)
+			}
+		}
 		p.nsub++
 		p.ids[canonKey(req)] = p.nsub
 		p.addFails = s.A == "SubmitAddFails"
@@ -694,6 +714,13 @@ func (p *Pipe) Exec(s Step, dids []int) error {
 			}
 			for _, did := range []string{p.DID(d), long} {
 				odd[i] = append(odd[i], p.view(p.resolveAt(did, "versionTime", "1969-12-31T23:59:59Z")), p.view(p.resolveAt(did, "versionId", "ref not found")))
+				if p.ViaREST {
+					// query strings that name a version but cannot be decoded: whatever they select, it is not the latest state
+					for _, q := range []string{"versionId=%ZZ", "versionId=nope%", "versionId=nope;a=b", "versionTime=1969-12-31T23:59:59Z;a=b",
+						"versionTime=1969-12-31T23:59:59Z%", "versionTime=garbage%ZZ&versionId=nope%"} {
+						odd[i] = append(odd[i], p.view(p.resolveRaw(did, q)))
+					}
+				}
 			}
 		}
 		p.log(map[string]interface{}{"ev": "ResolveHist", "times": times, "versions": versions, "timesLong": timesLong, "versionsLong": versionsLong, "odd": odd})
@@ -895,10 +922,19 @@ func (p *Pipe) resolveAt(did, param, value string) (*document.ResolutionResult, 
 		}
 		return p.handler.ResolveDocument(did, document.WithVersionID(value))
 	}
+	return p.resolveRaw(did, url.Values{param: {value}}.Encode())
+}
+
+// resolveRaw sends GET /identifiers/{id}?<raw query> to the real ResolveHandler.
+func (p *Pipe) resolveRaw(did, q string) (*document.ResolutionResult, error) {
 	h := restdoc.NewResolveHandler(p.handler, noMetrics{})
 	rw := httptest.NewRecorder()
-	q := url.Values{param: {value}}.Encode()
-	r := mux.SetURLVars(httptest.NewRequest(http.MethodGet, "/identifiers/"+did+"?"+q, nil), map[string]string{"id": did})
+	req, err := http.NewRequest(http.MethodGet, "http://example.com/identifiers/"+did, nil)
+	if err != nil {
+		return nil, err
+	}
+	req.URL.RawQuery = q
+	r := mux.SetURLVars(req, map[string]string{"id": did})
 	h.Resolve(rw, r)
 	if rw.Code != http.StatusOK {
 		return nil, fmt.Errorf("HTTP %d: %s", rw.Code, strings.TrimSpace(rw.Body.String()))
